@@ -489,3 +489,24 @@ def no_hashing_of_peer_values(tree, rep, rule, sites_):
               key="%s:no-hash-of-peer-value" % rule,
               what="%s hashes a peer-supplied value (`%s`): a hint whose field is a JSON list or object raises TypeError inside the handler and the "
                    "whole hints message - valid hints included - is lost" % (bad[1] if bad else "?", ast.unparse(bad[2])[:80] if bad else "?"))
+
+
+def forwarded_in_same_turn(tree, rep, rule, rel, sites_, why):
+    """each listed method calls its callee directly - a Call statement of the method's own body, not inside a lambda / nested function
+    and never handed to callLater / eventually / deferLater as an argument: the mechanism rests on the call happening in the same reactor
+    turn (the exception must travel back into the caller's try/except; open and close must not be re-ordered)."""
+    for cls, fname, callee in sites_:
+        fn = tree.func(rel, cls, fname)
+        direct, indirect = [], []
+        nested = {id(x) for f in ast.walk(fn) if isinstance(f, (ast.Lambda, ast.FunctionDef, ast.AsyncFunctionDef)) and f is not fn for x in ast.walk(f)}
+        called = {id(c.func): c for c in ast.walk(fn) if isinstance(c, ast.Call)}
+        for n in ast.walk(fn):
+            if isinstance(n, ast.Attribute) and dotted(n) == callee:
+                if id(n) in called and id(n) not in nested:
+                    direct.append(called[id(n)])
+                else:
+                    indirect.append(n)
+        rep.check(rule, "%s.%s calls %s directly, in the same turn (%d direct call(s), %d other mention(s))" % (cls, fname, callee, len(direct), len(indirect)),
+                  bool(direct) and not indirect, site(indirect[0] if indirect else fn, rel), key="%s:%s.%s:same-turn" % (rule, cls, fname),
+                  what="%s.%s no longer calls %s itself in the turn the event arrives (it is handed to a scheduler or wrapped in a closure): %s"
+                       % (cls, fname, callee, why))
